@@ -155,6 +155,7 @@ func identityVariant(b *j5sgen.Bundle) *variant {
 func genDet(h *vh.H, i int) string {
 	cfg := cfgFor(h, "skel")
 	cfg.MaxPkgs, cfg.MaxFiles = 4, 4
+	cfg.NestedPkgs = true
 	g := j5sgen.New(h.Rng, cfg)
 	b := g.Bundle()
 	if h.Chance(1, 6) {
